@@ -116,8 +116,10 @@ Section Transf.
         let! kws' := rmap (fun kw => let! v := transf comp (snd kw) in ret (fst kw, v)) kws in
         ret (Call f' args' kws')
     | Lambda po ar va ko kd kw de body =>
-        (* the `arguments` record is copied as it is: defaults are NOT rewritten *)
-        let! body' := transf comp body in ret (Lambda po ar va ko kd kw de body')
+        (* fields in AST order: args (kw_defaults, then defaults), then body *)
+        let! kd' := rmap (topt comp) kd in
+        let! de' := tl comp de in
+        let! body' := transf comp body in ret (Lambda po ar va ko kd' kw de' body')
     | IfExp t b o => let! t' := transf comp t in let! b' := transf comp b in let! o' := transf comp o in ret (IfExp t' b' o')
     | Yield _ | YieldFrom _ | Await _ => fail ERuntime     (* generators / coroutines are refused *)
     | Other k => ret (Other k)
@@ -382,24 +384,30 @@ Section Stmts.
       end
     else IfExp test (wrap cfg body) (wrap cfg orelse).
 
-  Fixpoint lower_stmt (c : ctx) (p : path) (s : stmt) {struct s} : res (list expr) :=
-    (* _iter_branch: [i] = index of the first statement of b inside its block; [br] = branch number *)
-    let block := fix block (c : ctx) (p : path) (br : nat) (i : nat) (b : list stmt) {struct b} : res (list expr) :=
+  (* _iter_branch: [i] = index of the first statement of b inside its block; [br] = branch number;
+     [L] is lower_stmt itself *)
+  Section Block.
+    Variable L : ctx -> path -> stmt -> res (list expr).
+    Fixpoint lower_block (c : ctx) (p : path) (br : nat) (i : nat) (b : list stmt) {struct b} : res (list expr) :=
       match b with
       | [] => ret []
       | s :: rest =>
-          let! es := lower_stmt c (i :: br :: p) s in
+          let! es := L c (i :: br :: p) s in
           if is_interrupt s then ret es
           else match rest with
                | [] => ret es
                | _ =>
-                   let! rs := block c p br (S i) rest in
+                   let! rs := lower_block c p br (S i) rest in
                    match guard_of c with
                    | (bumps, Some flag) => if bumps s then ret (es ++ [guarded cfg flag rs]) else ret (es ++ rs)
                    | (_, None) => ret (es ++ rs)
                    end
                end
-      end in
+      end.
+  End Block.
+
+  Fixpoint lower_stmt (c : ctx) (p : path) (s : stmt) {struct s} : res (list expr) :=
+    let block := lower_block (fun c0 p0 s0 => lower_stmt c0 p0 s0) in
     let n := c_nsp c in
     match s with
     | SExpr e => let! e' := tr n e in ret [e']
@@ -541,11 +549,13 @@ Section Stmts.
                 let cd := ol "classnsp" (nat2s (n_id cn)) in
                 let loader := ol "loader" (path_str p) in
                 let class_body := [NamedExpr "__class__" load1; NamedExpr cd (EDict [] [])] ++ b' ++ [Name cd] in
-                ret [create;
+                let! decorated :=
+                  rmap (fun d => let! d' := tr n d in get_assign n name (call d' [load1])) (rev decs) in
+                ret ([create;
                      NamedExpr loader (lambda0 (Subscript (EList class_body) (UnaryOp USub (cint 1))));
                      ListComp (call (Name "setattr") [load1; Name (ol "key" (path_str p)); Name (ol "value" (path_str p))])
                               [(ETuple [Name (ol "key" (path_str p)); Name (ol "value" (path_str p))],
-                                call (Attribute (call (Name loader) []) "items") [], [], false)]]
+                                call (Attribute (call (Name loader) []) "items") [], [], false)]] ++ decorated)
             | _ => fail EAssert
             end
         end
